@@ -319,7 +319,12 @@ type Gen struct {
 	MaxDepth int
 	MaxBody  int
 	bcount   int
-	ASCII    bool // only ASCII in strings (needed where the Coq model evaluates Quote)
+	encl     []string // boundaries of the enclosing multiparts
+	used     map[string]bool
+	// Prefix: boundaries that are proper prefixes of each other (outer of inner and vice versa) and body lines that
+	// start with "--<enclosing boundary>" followed by more text (not delimiters: RFC 2046 5.1.1)
+	Prefix bool
+	ASCII  bool // only ASCII in strings (needed where the Coq model evaluates Quote)
 	// C13: part numbering of a message whose own type is message/rfc822 is not exercised
 	NoTopMsg   bool
 	NoMsgInMsg bool
@@ -414,7 +419,16 @@ func (g *Gen) text(max int, eolMix bool) []byte {
 	for sb.Len() < n {
 		switch g.Rng.Pick(12) {
 		case 0:
-			sb.WriteString("--not a boundary ")
+			if g.Prefix && len(g.encl) > 0 {
+				// a line that starts like a delimiter of an enclosing multipart but goes on
+				nl := "\r\n"
+				if eolMix && g.Rng.Chance(0.5) {
+					nl = "\n"
+				}
+				sb.WriteString(nl + "--" + g.encl[g.Rng.Pick(len(g.encl))] + []string{"x more", "#1", "y--", "-alt#"}[g.Rng.Pick(4)] + nl)
+			} else {
+				sb.WriteString("--not a boundary ")
+			}
 		case 1:
 			sb.WriteString("-- ")
 		case 2:
@@ -443,20 +457,43 @@ func (g *Gen) text(max int, eolMix bool) []byte {
 
 func (g *Gen) boundary() string {
 	g.bcount++
+	if g.Prefix && len(g.encl) > 0 && g.Rng.Chance(0.6) {
+		outer := g.encl[len(g.encl)-1]
+		cand := outer + []string{"-alt", "x", "2", "-", "_=1"}[g.Rng.Pick(5)]
+		if g.Rng.Chance(0.3) && len(outer) > 2 {
+			cand = outer[:len(outer)-1] // the inner boundary is a proper prefix of the outer one
+		}
+		if g.used == nil {
+			g.used = map[string]bool{}
+		}
+		if !g.used[cand] {
+			g.used[cand] = true
+			return cand
+		}
+	}
 	k := g.Rng.Pick(4)
 	if g.bcount >= 10 && (k == 0 || k == 3) {
 		k = 1 // keep "XXn" from being a prefix of "XXnm"
 	}
+	b := ""
 	switch k {
 	case 0:
-		return fmt.Sprintf("XX%d", g.bcount)
+		b = fmt.Sprintf("XX%d", g.bcount)
 	case 1:
-		return fmt.Sprintf("=_b%d_=", g.bcount)
+		b = fmt.Sprintf("=_b%d_=", g.bcount)
 	case 2:
-		return fmt.Sprintf("simple boundary %d", g.bcount)
+		b = fmt.Sprintf("simple boundary %d", g.bcount)
 	default:
-		return fmt.Sprintf("XX%dY", g.bcount) // XXn is a prefix of it
+		b = fmt.Sprintf("XX%dY", g.bcount) // XXn is a prefix of it
 	}
+	if g.used == nil {
+		g.used = map[string]bool{}
+	}
+	if g.used[b] {
+		b = fmt.Sprintf("=_u%d_=", g.bcount)
+	}
+	g.used[b] = true
+	return b
 }
 
 func (g *Gen) contentExtras(n *Node) {
@@ -517,7 +554,8 @@ func (g *Gen) Tree(depth int, top bool, eolMix bool) *Node {
 		n.HasCT = g.Rng.Chance(0.8)
 		n.Type, n.Sub = "text", "plain"
 		if n.HasCT {
-			ts := [][2]string{{"text", "plain"}, {"text", "html"}, {"application", "octet-stream"}, {"image", "png"}, {"text", "x-weird.1"}}
+			ts := [][2]string{{"text", "plain"}, {"text", "html"}, {"application", "octet-stream"}, {"image", "png"}, {"text", "x-weird.1"},
+				{"message", "delivery-status"}, {"message", "disposition-notification"}, {"message", "partial"}, {"message", "x-other"}}
 			t := ts[g.Rng.Pick(len(ts))]
 			n.Type, n.Sub = t[0], t[1]
 			if g.Rng.Chance(0.6) {
@@ -557,6 +595,8 @@ func (g *Gen) Tree(depth int, top bool, eolMix bool) *Node {
 		if g.NoClose && g.Rng.Chance(0.2) {
 			n.NoClose, n.Epilogue = true, nil
 		}
+		g.encl = append(g.encl, n.Boundary)
+		defer func() { g.encl = g.encl[:len(g.encl)-1] }()
 		k := g.Rng.Range(1, 3)
 		for i := 0; i < k; i++ {
 			if g.Bare && g.Rng.Chance(0.12) && !(n.NoClose && i == k-1) {
